@@ -1,6 +1,7 @@
 import ModelF.Flow
 import ModelD.Flow
 import Driver.Proto
+import Driver.Ops.Quat
 /-! driver ops for K33–K35 (`velocity.*`, `geometry.to_indices2d`, `utils.strain_increment`,
 `pathlines._is_inside` and the terminal event `_terminate`).  Op names are prefixed `flow_`. -/
 namespace Ops.Flow
@@ -78,6 +79,6 @@ def handle (toks : List String) : Option String :=
     | "cell0" => some (idxOut (ModelD.Flow.cellIndices false h v))
     | "cell1" => some (idxOut (ModelD.Flow.cellIndices true h v))
     | _ => some "bad-kind"
-  | _ => none
+  | _ => Ops.Quat.handle toks   -- area `flows`: second ops file chained here (one registration line in Main)
 
 end Ops.Flow
